@@ -271,6 +271,9 @@ def oracle(case, r):
         return V
     for (t, cp, granted) in r.get("probe_mismatch", [])[:1]:
         V.append(("C12", "probe", "can_put() = %s at %s but a reservation issued in the same instant was %s" % (cp, t, "granted" if granted else "not granted")))
+        if case["acc"] and granted and not cp:
+            # an accumulating belt takes items until it holds its capacity: its probe must not turn a feeder away while the store admits
+            V.append(("C13", "probe", "accumulating belt: can_put() refused at %s although an entry requested in the same instant was granted" % (t,)))
     if not any(isinstance(g, dict) for g in case["producers"]):
         # first come, first served at the entrance (item numbers are handed out in request order)
         adm = sorted(i for i in items if "admit" in items[i])
@@ -441,8 +444,11 @@ def gen_real_case(rng):
     c = gen_case(rng)
     c["real"] = True
     if c["kind"] == "cont":
-        il = rng.choice([1, 1, 2])
-        c.update(item_length=il, speed=rng.choice([0.3, 0.7, 1.3, 1.9]), length=float(il * rng.choice([1, 2, 3, 4, 5])))
+        il = rng.choice([1, 1, 2, 0.4, 0.2, 0.8, 0.1])
+        # decimal item lengths whose multiples are whole numbers: 5 x 0.4 = 2, 5 x 0.2 = 1, 5 x 0.8 = 4, 10 x 0.1 = 1 (the belt
+        # length is a whole number of item lengths although length / item length is not exact in binary)
+        k = rng.choice([1, 2, 3, 4, 5]) if il >= 1 else (10 if il == 0.1 else 5) * rng.choice([1, 1, 2])
+        c.update(item_length=il, speed=rng.choice([0.3, 0.7, 1.3, 1.9, 1, 1]), length=float(round(il * k, 9)))
     else:
         c.update(delay=rng.choice([0.1, 0.3, 0.7, 1.3]))
     prods = []
